@@ -54,9 +54,10 @@ def allWritable (w : Nat → Bool) (a : Nat) : Nat → Bool
 
 def logEv (s : MState) (e : Event) : MState := { s with log := e :: s.log }
 
-/-- the kernel maps a fresh rwx region (answer of the oracle) -/
+/-- the kernel maps a fresh, zero-filled rwx region (answer of the oracle) -/
 def doMmap (s : MState) (a n : Nat) : MState :=
-  { s with maps := s.maps ++ [(a, n)],
+  { s with mem := fun x => if a ≤ x ∧ x < a + pageUp n then 0 else s.mem x,
+           maps := s.maps ++ [(a, n)],
            writable := fun x => if a ≤ x ∧ x < a + pageUp n then true else s.writable x,
            log := Event.mmap a n :: s.log }
 
@@ -94,27 +95,25 @@ def Payload.jitSize : Payload → Nat
   | Payload.exec _ => X86.jitSizeExec
   | Payload.bool _ => X86.jitSizeBool
 
-/-- x86-64 installation, given the trampoline address `jit` the allocator obtained.
-    `none` = the library panicked (debug-build arithmetic overflow) before writing anything
-    at `func`. -/
-def installX86 (mode : Mode) (s : MState) (func : Nat) (p : Payload) (jit : Nat) : Option MState :=
-  let s1 := doMmap s jit p.jitSize
-  let s2? : Option MState := match p with
-    | Payload.exec fake =>
-      match X86.genBranch mode jit fake with
-      | Res.ok code => some (injectAsm s1 jit code)
-      | Res.panic _ => none
-    | Payload.bool v => some (injectAsm s1 jit (X86.boolStub v))
-  match s2? with
-  | none => none
-  | some s2 =>
-    match X86.genBranch mode func jit with
+/-- bytes written into the trampoline; `none` = the encoder panicked (debug-build overflow) -/
+def payloadCode (mode : Mode) (p : Payload) (jit : Nat) : Option (List Nat) :=
+  match p with
+  | Payload.exec fake => match X86.genBranch mode jit fake with
+    | Res.ok c => some c
     | Res.panic _ => none
-    | Res.ok br =>
-      let saved := readMem s2.mem func br.length
-      let s3 := patchFunction s2 func br
-      some (logEv { s3 with guards := s3.guards ++
-        [{ addr := func, saved := saved, patchLen := br.length, jit := jit, jitLen := p.jitSize }] } Event.ret)
+  | Payload.bool v => some (X86.boolStub v)
+
+/-- x86-64 installation, given the trampoline address `jit` the allocator obtained.
+    `none` = the library panicked (debug-build arithmetic overflow in an encoder) before writing
+    anything at `func`. -/
+def installX86 (mode : Mode) (s : MState) (func : Nat) (p : Payload) (jit : Nat) : Option MState :=
+  match payloadCode mode p jit, X86.genBranch mode func jit with
+  | some code, Res.ok br =>
+    let s2 := injectAsm (doMmap s jit p.jitSize) jit code
+    let saved := readMem s2.mem func br.length
+    let s3 := patchFunction s2 func br
+    some (logEv { s3 with guards := s3.guards ++ [Guard.mk func saved br.length jit p.jitSize] } Event.ret)
+  | _, _ => none
 
 /-- `PatchGuard::drop` -/
 def restoreGuard (s : MState) (g : Guard) : MState :=
@@ -138,5 +137,49 @@ def dropInjector (ord : DropOrder) (s : MState) : MState :=
     | DropOrder.oldestFirst => s.guards
     | DropOrder.newestFirst => s.guards.reverse
   logEv { (dropGuards s gs) with guards := [] } Event.ret
+
+/-! ### instruction-cache discipline over the event log (C17) -/
+
+def rangeOf (a n : Nat) : List Nat := (List.range n).map (a + ·)
+
+/-- Process events oldest first, tracking the bytes written and not yet flushed.
+    `none` = control returned to the user (`ret`) while some written byte was unflushed. -/
+def dirtyAfter : List Nat → List Event → Option (List Nat)
+  | d, [] => some d
+  | d, Event.write a bs :: es => dirtyAfter (d ++ rangeOf a bs.length) es
+  | d, Event.flush lo hi :: es => dirtyAfter (d.filter (fun x => !(decide (lo ≤ x) && decide (x < hi)))) es
+  | d, Event.munmap a n :: es => dirtyAfter (d.filter (fun x => !(decide (a ≤ x) && decide (x < a + pageUp n)))) es
+  | d, Event.ret :: es => if d.isEmpty then dirtyAfter d es else none
+  | d, Event.mmap _ _ :: es => dirtyAfter d es
+  | d, Event.mprotect _ _ :: es => dirtyAfter d es
+
+/-- the log (newest first) never lets control return with an unflushed written byte -/
+def flushClean (log : List Event) : Prop := dirtyAfter [] log.reverse = some []
+
+/-- `munmap` calls in a list of events, in order -/
+def munmapsOf : List Event → List (Nat × Nat)
+  | [] => []
+  | Event.munmap a n :: es => (a, n) :: munmapsOf es
+  | _ :: es => munmapsOf es
+
+def mmapsOf : List Event → List (Nat × Nat)
+  | [] => []
+  | Event.mmap a n :: es => (a, n) :: mmapsOf es
+  | _ :: es => mmapsOf es
+
+/-- one installation request: target, payload, and where the OS put the trampoline -/
+structure Req where
+  func : Nat
+  payload : Payload
+  jit : Nat
+  deriving Repr, DecidableEq
+
+/-- a whole install history through one injector; `none` = some installation panicked -/
+def installs (mode : Mode) (s : MState) : List Req → Option MState
+  | [] => some s
+  | r :: rs =>
+    match installX86 mode s r.func r.payload r.jit with
+    | none => none
+    | some s1 => installs mode s1 rs
 
 end Inj.Machine
